@@ -92,21 +92,20 @@ theorem callFn_sim (c : ICtx) (D : Env) (a : Nat) (args : List Seq) :
     cases hf : o.fixed with
     | none =>
       simp only [eraseObj, FObj.nargsOk, FObj.arity, hc, hf, pure_bind]
-      match args with
-      | [s] =>
-        simp only [List.length_cons, List.length_nil, Nat.zero_add, BEq.rfl, if_true, Option.isSome_none,
-          Bool.false_and, Bool.false_eq_true, if_false]
+      by_cases h : args.length = b.arity
+      · simp only [h, BEq.rfl, if_true, Option.isSome_none, Bool.false_and, Bool.false_eq_true, if_false]
         exact Sim.map (Sim.lift _) _ (fun _ => rfl)
-      | [] => simp; exact Sim.thr _ _
-      | _ :: _ :: _ => simp; exact Sim.thr _ _
+      · have h' : (b.arity == args.length) = false := by
+          simp only [beq_eq_false_iff_ne, ne_eq]; exact fun h2 => h h2.symm
+        simp only [h', Bool.false_eq_true, if_false, h]
+        exact Sim.thr _ _
     | some pat =>
       simp only [eraseObj, FObj.nargsOk, FObj.arity, hc, hf]
       by_cases h : args.length = holes pat
       · simp only [h, BEq.rfl, if_true, pure_bind]
         generalize fill pat args = full
-        match full with
-        | [s] =>
-          simp only [Option.isSome_some, Bool.true_and]
+        by_cases hl : full.length = b.arity
+        · simp only [hl, if_true, Option.isSome_some, Bool.true_and]
           by_cases hq : (b == Builtin.exists_ || b == Builtin.empty_) = true
           · simp only [hq, if_true]
             apply Sim.flag_bind
@@ -114,8 +113,8 @@ theorem callFn_sim (c : ICtx) (D : Env) (a : Nat) (args : List Seq) :
             simp [Flags.none] at hfl
           · simp only [hq, if_false]
             exact Sim.map (Sim.lift _) _ (fun _ => rfl)
-        | [] => simp only []; exact Sim.thr _ _
-        | _ :: _ :: _ => simp only []; exact Sim.thr _ _
+        · simp only [hl, if_false]
+          exact Sim.thr _ _
       · have h' : (holes pat == args.length) = false := by
           simp only [beq_eq_false_iff_ne, ne_eq]; exact fun h2 => h h2.symm
         simp only [h', Bool.false_eq_true, if_false, h, SM.throw_bind]
@@ -407,11 +406,8 @@ theorem specCall_arity_err (a : Nat) (args : List Seq) (h : SHeap) (o : SObj) (h
     cases hc : o.code with
     | builtin b =>
       simp only [hc] at hne
-      simp only [SM.pure_def]
-      match args with
-      | [s] => simp at hne
-      | [] => rfl
-      | _ :: _ :: _ => rfl
+      simp only [SM.pure_bind, hne, if_false]
+      rfl
     | inline ps body =>
       simp only [hc] at hne
       simp only [SM.pure_bind, hne, if_false]
@@ -480,8 +476,14 @@ theorem evArith_sim (op : AOp) (a b : Expr) (c : ICtx) (D : Env) :
     Sim Prod.fst (evArith ev op a b c D) (specArith sev op a b (eraseCtx c)) := by
   unfold evArith specArith
   apply Sim.bnd (hev a c D); intro x
-  apply Sim.bnd (hev b c x.2); intro y
-  exact Sim.map (Sim.lift _) _ (fun _ => rfl)
+  cases arithOperand x.1 with
+  | error e => exact Sim.thr _ _
+  | ok v =>
+    cases v with
+    | none => exact Sim.ret _ _ _ rfl
+    | some u =>
+      apply Sim.bnd (hev b c x.2); intro y
+      exact Sim.map (Sim.lift _) _ (fun _ => rfl)
 
 theorem evCompare_sim (op : COp) (a b : Expr) (c : ICtx) (D : Env) :
     Sim Prod.fst (evCompare ev op a b c D) (specCompare sev op a b (eraseCtx c)) := by
@@ -574,6 +576,15 @@ theorem step_sim (e : Expr) (c : ICtx) (D : Env) :
       exact callFn_sim cfg ev sev hev c _ _ _
     · simp only [if_true]
       exact partialApply_sim cfg ev sev hev c _ _ _
+  | spart b args =>
+    simp only [step, specStep]
+    by_cases h : args.length = b.arity
+    · simp only [h, if_true]
+      apply Sim.bnd (evalArgs_sim ev sev hev c args D); intro r
+      apply Sim.bnd (p := id) (Sim.alloc _); intro n
+      exact Sim.ret _ _ _ rfl
+    · simp only [h, if_false]
+      exact Sim.thr _ _
   | par e => exact hev e c D
   | smap a b =>
     simp only [step, specStep]
